@@ -53,6 +53,7 @@ type Viol struct {
 
 type OrderVisit struct {
 	Site string `json:"site"`
+	Idx  int    `json:"idx"`
 	N    int    `json:"n"`
 	Perm []int  `json:"perm,omitempty"`
 }
